@@ -16,7 +16,10 @@ pub fn run(seed: u64, count: usize, shards: usize, outdir: &str) {
     let mut metas: Vec<Vec<serde_json::Value>> = vec![Vec::new(); shards];
     let mut hist = std::collections::BTreeMap::<String, usize>::new();
     for i in 0..count {
-        let nc = r.range(1, 4);
+        // every 40th case is WIDE: 60-70 equal courses that all (or all but one) have to shrink to equally sized rooms -- the number of
+        // constraint sets C(n, k) is small (k = n or n - 1) but n is beyond the range where util::binom's intermediate products fit
+        let wide = i % 40 == 17;
+        let nc = if wide { r.range(60, 70) } else { r.range(1, 4) };
         let mut courses: Vec<ICourse> = Vec::new();
         let mut next_p = 0usize;
         let mut a: Vec<Option<usize>> = Vec::new();
@@ -35,7 +38,8 @@ pub fn run(seed: u64, count: usize, shards: usize, outdir: &str) {
                 2 => min,
                 _ => r.range(min.saturating_sub(2), (min + 3).min(max)),
             };
-            let cancelled_like = att == 0 && r.chance(1, 2);
+            let (min, max, ninstr, instr, fbits, obits, att) = if wide { (0, 3, 0, Vec::new(), 1.0f32.to_bits(), 0.0f32.to_bits(), 2) } else { (min, max, ninstr, instr, fbits, obits, att) };
+            let cancelled_like = !wide && att == 0 && r.chance(1, 2);
             let people = if cancelled_like { 0 } else { att + ninstr };
             for _ in 0..people {
                 a.push(Some(c));
@@ -44,7 +48,7 @@ pub fn run(seed: u64, count: usize, shards: usize, outdir: &str) {
                 a.push(None);
             }
             next_p += people.max(ninstr);
-            let fixed = r.chance(1, 6);
+            let fixed = !wide && r.chance(1, 6);
             let n = people;
             sizes.push(if n == 0 && !fixed { 0 } else { (f32::from_bits(obits) + f32::from_bits(fbits) * n as f32).ceil() as usize });
             courses.push(ICourse { min, max, instr, fixed, fbits, obits });
@@ -73,12 +77,18 @@ pub fn run(seed: u64, count: usize, shards: usize, outdir: &str) {
         if r.chance(1, 4) {
             rooms.push(r.range(0, 60));
         }
+        if wide {
+            let big = r.below(2);
+            rooms = vec![1; nc - big];
+            rooms.extend(vec![2; big]);
+            *hist.entry(String::from("wide")).or_insert(0) += 1;
+        }
         r.shuffle(&mut rooms);
         let inst = Inst { courses: courses.clone(), parts: vec![Vec::new(); np], rooms: Some(rooms.clone()), style: String::from("gate") };
         let (cs, ps) = build(&inst);
         // node: root, or some shrinks / enforced / cancelled courses
         let mut nd = VNode { cancelled: vec![], enforced: vec![], shrinked: vec![] };
-        for c in 0..nc {
+        for c in 0..(if wide { 0 } else { nc }) {
             match r.below(8) {
                 0 => {
                     if sizes[c] == 0 && !courses[c].fixed {
